@@ -227,9 +227,16 @@ func (p *eparser) parseImpl() Expr {
 			}
 			// type: tokens until ',' or '::'
 			var ty []string
-			for !p.isOp(",") && !p.isOp("::") {
+			depth := 0
+			for depth > 0 || (!p.isOp(",") && !p.isOp("::")) {
 				if p.peek().k == "eof" {
 					panic("'::' expected")
+				}
+				if p.isOp("[") {
+					depth++
+				}
+				if p.isOp("]") {
+					depth--
 				}
 				ty = append(ty, p.next().v)
 			}
@@ -432,6 +439,14 @@ type FuncContract struct {
 	Asserts   []*Clause
 	Inline    bool
 	ModifiesAll bool
+	CallAsserts []*CallAssert
+}
+
+// CallAssert: an assertion that must hold at every call of Callee inside the function under contract.
+type CallAssert struct {
+	Callee  string
+	Ordinal int // -1: every call; k: the k-th call of the callee in source order
+	C       *Clause
 }
 
 type SpecFunc struct {
@@ -445,10 +460,13 @@ type SpecFunc struct {
 }
 
 type Axiom struct {
-	Name string
-	E    Expr
-	Text string
-	Pkg  string
+	Name      string
+	E         Expr
+	Text      string
+	Pkg       string
+	Induction string   // lemma: induction variable ("" = proved directly)
+	Props     []string // lemma: properties whose checks discharge it
+	IsLemma   bool
 }
 
 type ExemptRule struct {
@@ -486,7 +504,7 @@ type ContractFile struct {
 
 var clauseKeywords = map[string]bool{"requires": true, "ensures": true, "modifies": true, "loop": true, "prop": true, "nopanic": true,
 	"trusted": true, "covers": true, "func": true, "extern": true, "pure": true, "rec": true, "uninterp": true, "axiom": true, "lemma": true,
-	"ghost": true, "effectfree": true, "type-invariant": true, "relayed": true, "exempt": true, "import": true, "inline": true, "assert": true}
+	"ghost": true, "effectfree": true, "type-invariant": true, "relayed": true, "exempt": true, "import": true, "inline": true, "assert": true, "assert-call": true}
 
 // ParseContractFile reads //@ lines from a file.
 func ParseContractFile(path, pkg string) (*ContractFile, error) {
@@ -591,6 +609,29 @@ func ParseContractText(text, path, pkg string) (*ContractFile, error) {
 			case "assert":
 				cur.Asserts = append(cur.Asserts, c)
 			}
+		case "assert-call":
+			// assert-call <callee> : expr
+			if cur == nil {
+				return nil, fail(l.n, "assert-call outside func")
+			}
+			k := strings.Index(rest, " : ")
+			if k < 0 {
+				return nil, fail(l.n, "assert-call <callee> : <expr>")
+			}
+			c, err := mkClause("assert-call", strings.TrimSpace(rest[k+3:]), l.n)
+			if err != nil {
+				return nil, err
+			}
+			callee := strings.TrimSpace(rest[:k])
+			ord := -1
+			if h := strings.LastIndex(callee, " #"); h >= 0 {
+				ord, err = strconv.Atoi(strings.TrimSpace(callee[h+2:]))
+				if err != nil {
+					return nil, fail(l.n, "assert-call ordinal: %v", err)
+				}
+				callee = strings.TrimSpace(callee[:h])
+			}
+			cur.CallAsserts = append(cur.CallAsserts, &CallAssert{Callee: callee, Ordinal: ord, C: c})
 		case "modifies":
 			if cur == nil {
 				return nil, fail(l.n, "modifies outside func")
@@ -668,6 +709,24 @@ func ParseContractText(text, path, pkg string) (*ContractFile, error) {
 				return nil, fail(l.n, "%v", err)
 			}
 			a := &Axiom{Name: strings.TrimSpace(rest[:k]), E: e, Text: strings.TrimSpace(rest[k+1:]), Pkg: pkg}
+			if kw == "lemma" {
+				// lemma <name> [induction <var>] [prop Cxx ...]: expr
+				hf := strings.Fields(rest[:k])
+				a.Name = hf[0]
+				a.IsLemma = true
+				for i := 1; i < len(hf); i++ {
+					switch hf[i] {
+					case "induction":
+						if i+1 < len(hf) {
+							a.Induction = hf[i+1]
+							i++
+						}
+					case "prop":
+						a.Props = append(a.Props, hf[i+1:]...)
+						i = len(hf)
+					}
+				}
+			}
 			if kw == "axiom" {
 				cf.Axioms = append(cf.Axioms, a)
 			} else {
